@@ -27,6 +27,13 @@ disposes what they hold), multiprocessing in proxy.py (the worker runs in a
 thread), the component manager (closing it ends the side's components and
 local bridges).  After close() the side's process is considered gone.
 
+Naming of the sides: the model identifies sides abstractly and origin markers
+are compared for equality of side ids.  Every case carries a naming scheme
+('names'): the standard one (client, pilot.0000, ...) or one in which ids
+contain one another (p1/p10/p100, gpu/gpu.big, pilot.1000/pilot.10000 after the
+counter overflow, ids containing 'client' or contained in it, suffixes); the
+expectation is the same under every scheme.
+
 Fault cases (kind 'fault'): a fault schedule names, per crosswire (side,
 direction, channel), the calls of publisher.put on that crosswire's publisher
 (1st, 2nd, ...) that raise; the in-memory publisher counts the calls made by the
@@ -48,16 +55,45 @@ MTYPES = {'rpc_req': 'RpcReq', 'rpc_res': 'RpcRes', 'component_start': 'CompStar
 ADV_STATES = [None, 'AGENT_EXECUTING', 'FAILED', 'DONE']
 
 
+# How the sides are called.  The model identifies sides abstractly (side k); origin markers are compared
+# for EQUALITY of side ids.  The client's module name is 'client' (no RP_PILOT_ID), a pilot's is its pilot id --
+# generated ('pilot.%04d') or chosen by the user.  Every scheme is injective; all but 'std' contain ids that
+# are substrings / prefixes / suffixes of other ids (also of ids of sides that are not connected).
+_SUBCLIENT = ['clien', 'lient', 'clie', 'lien', 'ient', 'cli', 'lie', 'ien', 'ent', 'cl', 'li', 'ie', 'en', 'nt',
+              'c', 'l', 'i', 'e', 'n', 't']
+SCHEMES = {
+    'std'        : lambda k: 'pilot.%04d' % (k - 1),
+    'prefix'     : lambda k: 'p1' + '0' * (k - 1),                  # p1, p10, p100, ...
+    'dotted'     : lambda k: 'gpu' + '.big' * (k - 1),              # gpu, gpu.big, gpu.big.big, ...
+    'overflow'   : lambda k: 'pilot.1' + '0' * (k + 2),             # pilot.1000, pilot.10000, ... (%04d overflows)
+    'superclient': lambda k: 'client' + '.x' * k,                   # ids that contain 'client'
+    'subclient'  : lambda k: _SUBCLIENT[k - 1] if k <= len(_SUBCLIENT) else 'zz%d' % k,   # ids contained in 'client'
+    'suffix'     : lambda k: 'x' * (k - 1) + 'node',                # node, xnode, xxnode, ...
+}
+SCHEME = 'std'
+_INV = {}
+
+
+def set_scheme(name):
+    global SCHEME
+    if name not in SCHEMES:
+        raise ValueError('unknown naming scheme %r' % (name,))
+    SCHEME = name
+
+
 def modname(k):
-    return 'client' if k == 0 else 'pilot.%04d' % (k - 1)
+    return 'client' if k == 0 else SCHEMES[SCHEME](k)
 
 
 def modcode(name):
-    if name == 'client':
-        return 0
-    if isinstance(name, str) and name.startswith('pilot.') and name[6:].isdigit():
-        return int(name[6:]) + 1
-    raise ValueError('origin marker is not a module name: %r' % (name,))
+    inv = _INV.get(SCHEME)
+    if inv is None:
+        inv = {('client' if k == 0 else SCHEMES[SCHEME](k)): k for k in range(64)}
+        assert len(inv) == 64, 'naming scheme %s is not injective' % SCHEME
+        _INV[SCHEME] = inv
+    if name not in inv:
+        raise ValueError('origin marker is not a module name: %r' % (name,))
+    return inv[name]
 
 
 # ------------------------------------------------------------------------------
@@ -467,7 +503,7 @@ class C16(Prop):
         'heartbeat timeout, messages in flight while a session closes (life-cycle events happen at silent moments), '
         'the task queues crosswired by the task manager, the contents of messages other than origin/fwd',
     ]
-    assumptions = ['module names (client, pilot ids) are pairwise distinct',
+    assumptions = ['module names (client, pilot ids) are pairwise distinct (they may contain one another)',
                    'every connected side runs _crosswire_proxy exactly once against the same proxy channels',
                    'one client session per session id; sessions connect and close while no message is in flight',
                    'the proxy does not time the session out (heartbeats arrive)',
@@ -511,6 +547,22 @@ class C16(Prop):
                     yield {'at': at, 'ch': 0, 'via': 'typed', 'mtype': mt, 'fwd': f}
 
     def cases(self, rng, tier):
+        """every case kind under the standard naming of sides and under namings in which ids contain one another"""
+        odd = [k for k in SCHEMES if k != 'std']
+        rng2 = __import__('random').Random(rng.random())
+        nfwd = nsingle = 0
+        for c in self._cases(rng, tier):
+            yield c
+            small = (c['kind'] == 'fwd') or (c['kind'] == 'net' and c['sched'] == [] and len(c['posts']) == 1
+                                             and 1 <= c['n'] <= 2 and c['posts'][0]['via'] == 'raw')
+            if small:
+                # the exhaustive small sets: again under every other naming
+                for k in odd:
+                    yield dict(c, names=k)
+            elif rng2.random() < (0.5 if tier == 'quick' else 0.8):
+                yield dict(c, names=rng2.choice(odd))
+
+    def _cases(self, rng, tier):
         for me in (0, 1, 2):
             for fp in (False, True):
                 for o in (None, me, (me + 1) % 3, 7):
@@ -905,6 +957,7 @@ class C16(Prop):
                 'reqs': [[a, code[c]] for a, c in NET.requests], 'fails': fails}
 
     def run_impl(self, case):
+        set_scheme(case.get('names', 'std'))
         if case['kind'] == 'life':
             return self.run_life(case)
         if case['kind'] == 'fwd':
@@ -987,8 +1040,14 @@ class C16(Prop):
                                        L.lst([L.nat(k) for k in case['sched']]))
 
     def describe(self, case):
+        set_scheme(case.get('names', 'std'))
+        return self._describe(case)
+
+    def _describe(self, case):
         if case['kind'] == 'life':
-            return dict(case, sides='0 = client (owner of the session id), k >= 1 = pilot.%04d' % 0 + ' + (k-1)')
+            top = max([op[1] for op in case['ops'] if op[0] != 'round'] + [0])
+            return dict(case, sides=[modname(k) for k in range(top + 1)],
+                        note='side 0 = client (owner of the session id)')
         if case['kind'] == 'fwd':
             return dict(case, module=modname(case['me']))
         return dict(case, sides=[modname(k) for k in range(case['n'] + 1)])
@@ -1026,6 +1085,11 @@ class C16(Prop):
         return '%s:Session.crosswire_pubsub' % clause
 
     def shrink(self, case):
+        if case.get('names', 'std') != 'std':
+            yield {k: v for k, v in case.items() if k != 'names'}
+        yield from self._shrink(case)
+
+    def _shrink(self, case):
         if case['kind'] == 'life':
             ops = case['ops']
             if case['embedded']:
@@ -1100,6 +1164,8 @@ class C16(Prop):
         for r in results:
             c = r['case']
             kinds[c['kind']] = kinds.get(c['kind'], 0) + 1
+            nk = 'naming/' + c.get('names', 'std')
+            vias[nk] = vias.get(nk, 0) + 1
             if c['kind'] == 'fault':
                 ns[str(c['n'])] = ns.get(str(c['n']), 0) + 1
                 for a, f, ch, att in c['faults']:
